@@ -1582,9 +1582,45 @@ func ruleCounterNumeric(r *Run) {
 
 func ruleSoftBreak(r *Run) {
 	p := r.P
-	fn := r.mustFunc(pkgMd, "(*WordRenderer).renderInlineContent")
-	if fn == nil {
+	anchor := r.mustFunc(pkgMd, "(*WordRenderer).renderInlineContent")
+	if anchor == nil {
 		return
+	}
+	// the loop over the inline children with its *ast.Text case may have been moved into a helper
+	// shared with the task-item renderer: take the anchor, or else the function it reaches that has
+	// the Text case and produces runs (the text extractor has such a case too, but adds no runs)
+	hasTextCase := func(f *ssa.Function) bool {
+		has := false
+		allInstrs(f, func(in ssa.Instruction) {
+			if ta, ok := in.(*ssa.TypeAssert); ok && ta.CommaOk && typeIs(ta.AssertedType, gmAst, "Text") {
+				has = true
+			}
+		})
+		return has
+	}
+	addsRuns := func(f *ssa.Function) bool {
+		adds := false
+		fs := []*ssa.Function{f}
+		for g := range p.staticReach(f) {
+			fs = append(fs, g)
+		}
+		for _, g := range fs {
+			allInstrs(g, func(in ssa.Instruction) {
+				if c, ok := in.(ssa.CallInstruction); ok && strings.HasSuffix(calleeName(c), ".AddFormattedText") {
+					adds = true
+				}
+			})
+		}
+		return adds
+	}
+	fn := anchor
+	if !hasTextCase(fn) {
+		for _, g := range sortedFuncs(p.staticReach(anchor)) {
+			if g.Pkg != nil && g.Pkg.Pkg.Path() == pkgMd && g.Parent() == nil && hasTextCase(g) && addsRuns(g) {
+				fn = g
+				break
+			}
+		}
 	}
 	found := false
 	allInstrs(fn, func(in ssa.Instruction) {
@@ -1630,6 +1666,20 @@ func ruleSoftBreak(r *Run) {
 		}
 		okc := len(cut) > 0
 		why := "no call of SoftLineBreak() in the function"
+		if okc && loop == nil && !cut[entry] {
+			// the Text case sits in a per-node helper (no loop of its own): every way out of the case —
+			// to a return of the helper — must have consulted SoftLineBreak()
+			for b := range reachableBlocks(entry, cut) {
+				for _, in3 := range b.Instrs {
+					if _, isRet := in3.(*ssa.Return); isRet {
+						okc, why = false, "some path through the *ast.Text case returns before SoftLineBreak() is consulted"
+					}
+				}
+			}
+			if _, isRet := entry.Instrs[len(entry.Instrs)-1].(*ssa.Return); isRet && !cut[entry] {
+				okc, why = false, "the *ast.Text case returns before SoftLineBreak() is consulted"
+			}
+		}
 		if okc && loop != nil && !cut[entry] {
 			// can the next iteration (or the function exit) be reached from the Text case without it?
 			reach := reachableBlocks(entry, cut)
